@@ -52,6 +52,7 @@ type apiCall struct {
 	overlap      bool            // a Start/ManageModules/Shutdown call of another client overlapped this one
 	snap         map[string]int  // statuses right after the return
 	snapSeq      uint64
+	prepSwitched bool // Enable/Disable calls from the prep stage of this Start count for its wanted set
 	failedBefore bool // an earlier Start/ManageModules returned an error
 }
 
@@ -71,6 +72,7 @@ type Verdict struct {
 	Restarts                         int // modules started more than once
 	RetriedInPass                    int // a module's start routine launched twice by one Start/ManageModules call
 	RetriedDetail                    string
+	PrepSwitchedChecks               int // wanted-set checks of a Start during whose prep stage modules were switched
 	OverlapCalls                     int // Start/ManageModules/Shutdown calls that overlapped a call of another client
 	WantedChecks, OrderChecks        int
 }
@@ -156,6 +158,7 @@ func judge(sc *Scenario, out *ChildOut) *Verdict {
 		mod       string
 		on        bool
 		call, ret uint64 // ret == 0: did not return inside the log
+		inPrep    bool   // made from the global prep function or a prep routine
 	}
 	var ops []*flagOp
 	openOp := map[string]*flagOp{}
@@ -225,7 +228,8 @@ func judge(sc *Scenario, out *ChildOut) *Verdict {
 		case "call":
 			switch e.Op {
 			case "enable", "disable":
-				o := &flagOp{mod: fStr(e.F, "m"), on: e.Op == "enable", call: e.Seq}
+				o := &flagOp{mod: fStr(e.F, "m"), on: e.Op == "enable", call: e.Seq,
+					inPrep: e.Who == "globalprep" || strings.HasPrefix(e.Who, "prep:")}
 				ops = append(ops, o)
 				openOp[e.Who] = o
 			case "Start", "ManageModules", "Shutdown":
@@ -255,11 +259,27 @@ func judge(sc *Scenario, out *ChildOut) *Verdict {
 		if until == 0 {
 			until = inf
 		}
+		// Start evaluates the wanted set after the preparation stage: a call made from
+		// the global prep function or from a prep routine has returned before that, so
+		// it counts although it was made while Start was running
+		firstStart := uint64(inf)
+		if c.op == "Start" {
+			for _, n := range names {
+				for _, st := range logs[n].start {
+					if st.begin > c.call && st.begin < firstStart {
+						firstStart = st.begin
+					}
+				}
+			}
+		}
 		sure, open := map[string]bool{}, map[string]bool{}
 		for _, o := range ops { // in call order
 			switch {
 			case o.ret != 0 && o.ret < c.call:
 				sure[o.mod] = o.on
+			case c.op == "Start" && o.inPrep && o.ret != 0 && o.call > c.call && o.ret < firstStart && (c.ret == 0 || o.ret < c.ret):
+				sure[o.mod] = o.on
+				c.prepSwitched = true
 			case o.call < until:
 				open[o.mod] = true
 			}
@@ -601,6 +621,10 @@ func judge(sc *Scenario, out *ChildOut) *Verdict {
 		}
 		if c.overlap {
 			cls += ":concurrent-call"
+		}
+		if c.prepSwitched {
+			cls += ":switched-during-prep"
+			v.PrepSwitchedChecks++
 		}
 		if len(missing) > 0 {
 			add("C01:wanted-set:"+c.op+":missing"+cls,
